@@ -303,6 +303,19 @@ def run(case):
         root_tagged = texts[-1].startswith('--- !') or texts[-1].lstrip().startswith('!')      # (the flags of a merged root are those of the last document: '{}' is not neutral for them)
         if not root_tagged and got12[:2] != got13[:2]:
             vio.append({'mech': 'single-file-key-include-differs', 'what': f'{pre_text!r} then {case["key"]}: !include <one file> -> {util.short(got12[1:], 300)}; with an empty mapping document included behind it -> {util.short(got13[1:], 300)}; {what}'})
+        # ---------------- a priority tag above the include applies to the included content like to content written in place
+        d0 = case.get('doc0')
+        if d0 and not any(n['t'] == 'sp' for _, n in emit.walk(d0)) and d0.get('new') is not False and with_probe(utexts[0], [], 0) is not None and case['probe_doc'] != 0:
+            pr = 1 if random.Random(util.sig(case['texts'])).random() < 0.5 else -1
+            pre14 = emit.emit(M([[case['key'], case['override']]]), 'flow')
+            tag = '!force' if pr == 1 else '!weak'
+            m14 = os.path.join(mdir, 'master14.yaml')
+            write(m14, pre14 + f'--- {tag}\n{case["key"]}: !include {rel(mdir, upaths[0])}\n' + '---\n' + pre14)
+            got14 = observe(lambda: Config.build(m14))
+            inplace = observe(lambda: lib.build([pre14, emit.emit(M([[case['key'], copy.deepcopy(d0)]], prio=pr), 'flow'), pre14]))
+            feats.append('variant_priority_above_include')
+            if inplace[0] == 'ok' and got14[:2] != inplace[:2]:
+                vio.append({'mech': 'priority-above-include-not-applied', 'what': f'{pre14!r}, then {tag} {{{case["key"]}: !include <file>}}, then {pre14!r} again -> {util.short(got14[1:], 300)}; with the content of the file written in place of the include -> {util.short(_plain(inplace[2]), 300)}; {what}'})
         # ---------------- look-up order: decoys in the working directory
         if case['decoy_mode'] != 'none' and base[0] == 'ok':
             names = [f['name'] for f in case['files']]
